@@ -78,6 +78,18 @@ def lake_build(modules, timeout=3000):
     return p.returncode == 0, _clean(p.stdout + p.stderr)
 
 
+def leanchecker(modules, timeout=1800):
+    """Independent re-check of the compiled .olean files of the given modules (thorough tier)."""
+    with Lock(os.path.join(LEAN, ".lake.lock")):
+        try:
+            p = subprocess.run(["lake", "env", "leanchecker"] + list(modules), cwd=LEAN, capture_output=True, text=True, timeout=timeout)
+        except subprocess.TimeoutExpired:
+            return False, "TIMEOUT in leanchecker"
+        except FileNotFoundError:
+            return None, "leanchecker not on PATH"
+    return p.returncode == 0, _clean(p.stdout + p.stderr)
+
+
 def lean_file(path, timeout=1800):
     """Elaborate one Lean file inside the lake environment; returns (ok, output)."""
     try:
@@ -228,6 +240,13 @@ class Ctx:
         if bad or hits or not names:
             self.broken.append({"kind": "audit", "bad_axioms": bad, "forbidden": hits, "log": out[-2000:]})
             return False
+        if self.tier == "thorough":
+            t0 = time.time()
+            okc, logc = leanchecker([m for m in modules if m.startswith("AfqmcVerif.Props.")] or modules)
+            self.cov["leanchecker"] = {"ok": okc, "seconds": round(time.time() - t0, 1), "modules": modules}
+            if okc is False:
+                self.broken.append({"kind": "leanchecker", "log": logc[-2000:]})
+                return False
         return True
 
     # ---- verdicts
